@@ -200,14 +200,19 @@ pub fn panics_len() -> usize {
     PANICS.lock().map(|p| p.len()).unwrap_or(0)
 }
 
+/// Where the crate under test lives (scratch copies used for seeded-change evaluation set AGV_REPO_PREFIX).
+pub fn repo_prefix() -> String {
+    std::env::var("AGV_REPO_PREFIX").unwrap_or_else(|_| "/repo/".to_string())
+}
+
 impl PanicRec {
     /// True if the panic originates in the crate under test.
     pub fn in_repo(&self) -> bool {
-        self.file.starts_with("/repo/") || self.file.starts_with("src/")
+        self.file.starts_with(&repo_prefix()) || self.file.starts_with("src/")
     }
     /// Stable signature: file (relative) + first words of the message, digits stripped.
     pub fn sig(&self) -> String {
-        let f = self.file.trim_start_matches("/repo/");
+        let f = self.file.trim_start_matches(repo_prefix().as_str());
         let m: String = self.msg.chars().take(60).map(|c| if c.is_ascii_digit() { '#' } else { c }).collect();
         // collapse runs of '#'
         let mut out = String::new();
